@@ -10,7 +10,8 @@ fn cart_fwd(op: &Op, _ctx: &dyn Context, operands: &mut dyn CoordinateSet) -> us
     for i in 0..n {
         let mut coord = operands.get_coord(i);
         coord = ellps.cartesian(&coord);
-        if !coord.0.iter().any(|c| c.is_nan()) {
+        // The time coordinate is not touched: A NaN there does not make the conversion fail
+        if !coord.0.iter().take(3).any(|c| c.is_nan()) {
             successes += 1;
         }
         operands.set_coord(i, &coord);
@@ -62,6 +63,9 @@ fn cart_inv(op: &Op, _ctx: &dyn Context, operands: &mut dyn CoordinateSet) -> us
             let h = Z.abs() - b;
             coord = Coor4D::raw(lam, phi, h, t);
             operands.set_coord(i, &coord);
+            if !h.is_nan() {
+                successes += 1;
+            }
             continue;
         }
 
@@ -88,7 +92,7 @@ fn cart_inv(op: &Op, _ctx: &dyn Context, operands: &mut dyn CoordinateSet) -> us
         coord = Coor4D::raw(lam, phi, h, t);
         operands.set_coord(i, &coord);
 
-        if ![lam, phi, h, t].iter().any(|c| c.is_nan()) {
+        if ![lam, phi, h].iter().any(|c| c.is_nan()) {
             successes += 1;
         }
     }
